@@ -139,7 +139,9 @@ fn body_recurse(
                 }
             }
             Some(TokenTree::Literal(literal)) => {
-                lines.last_mut().unwrap().push_str(&literal.to_string());
+                // the text becomes part of a format string: braces inside a literal are literal braces
+                let text = literal.to_string().replace('{', "{{").replace('}', "}}");
+                lines.last_mut().unwrap().push_str(&text);
             }
             None => {
                 break;
